@@ -146,6 +146,12 @@ class Translator:
             if f is not None:
                 return f(*[self.conv(a) for a in n["args"]])
             raise Unconvertible(n, "call to %s" % n.get("callee"))
+        if k == "StringLiteral":
+            return sp.Symbol('"%s"' % n.get("value", ""))
+        if k in ("CXXConstructExpr", "CXXTemporaryObjectExpr") and "basic_string" in (n.get("ctype") or "") and n.get("args"):
+            lit = [y for y in A.walk(n["args"][0]) if y["k"] == "StringLiteral"]
+            if len(lit) == 1:
+                return sp.Symbol('"%s"' % lit[0].get("value", ""))
         if k in ("CXXConstructExpr", "CXXTemporaryObjectExpr") and len(n.get("args", [])) == 1:
             return self.conv(n["args"][0])
         if k == "ConditionalOperator":
